@@ -125,7 +125,7 @@ def run_group(verif, repo, group, pid, tier, scratch):
         res["status"] = "undecided"
         res["reason"] = f"harness injection failed: {e}"
         return res
-    jobs = int(os.environ.get("VERIF_KANI_JOBS", "6"))
+    jobs = int(os.environ.get("VERIF_KANI_JOBS", str(gd.get("jobs", 6))))
     base = ["cargo", "kani", "-Z", "function-contracts", "-Z", "stubbing", "-Z", "concrete-playback",
             "--concrete-playback=print", "--output-format", "terse"] + gd.get("extra_args", [])
     env = dict(os.environ, CARGO_NET_OFFLINE="true", CARGO_TARGET_DIR=os.path.join(scratch, "target"))
